@@ -20,7 +20,7 @@ var Flavours = map[string]*Flavour{
 	// C14's slice of E1: histories that move elements, then reads that must fail and name the setting
 	"C14": {Prop: "C14", WCreate: 1, WMerge: 3, WSet: 3, WSetChild: 2, WRemove: 4, WChild: 2, WRead: 6, WIllegal: 2,
 		Policies: []model.Handling{model.HDefault, model.HAppend, model.HPrepend, model.HReplaceArr}, Nil: true, MoveBias: true, Meta: true},
-	"C15": {Prop: "C15", WCreate: 1, WMerge: 3, WSet: 3, WSetChild: 2, WRemove: 5, WChild: 2, WRead: 2,
+	"C15": {Prop: "C15", WCreate: 1, WMerge: 3, WSet: 3, WSetChild: 2, WRemove: 5, WChild: 2, WRead: 2, CfgSources: true,
 		Policies: []model.Handling{model.HDefault, model.HAppend, model.HPrepend, model.HReplaceArr}, Nil: true, MoveBias: true},
 }
 
